@@ -220,6 +220,8 @@ def origins(body, place, at=None, extra_transparent=None, stop=None, max_steps=4
                 rest = _strip_prefix(path, dpath)
                 if rest is None:
                     continue
+                if call.f == "core::ops::try_trait::FromResidual::from_residual" and rest and rest[0][0] == "d" and rest[0][1] in ("Ok", "Some"):
+                    continue  # `?` only ever produces Err / None: this def cannot provide an Ok / Some payload
                 idxs = None if (stop and stop(call)) else transparent_args(call, extra_transparent)
                 if idxs is None:
                     out.add(Origin("call", bb=dbb, local=local, path=_thaw(rest), call=call, line=call.line))
@@ -319,6 +321,14 @@ def _payload_path(call, rest):
         return ()
     if _STRUCT_PRESERVING.search(f):
         return tuple(rest)
+    if f == "core::ops::try_trait::Try::branch" and len(rest) >= 2 and rest[0][0] == "d" and rest[0][1] == "Continue" and rest[1][0] == "f" and call.args:
+        # `x?`: the Continue payload is the Ok / Some payload of the operand (keeps the slice variant-sensitive behind `?`)
+        l = op_local(call.args[0])
+        aty = call.body.ty(l) if l is not None else ""
+        if aty.startswith("core::result::Result<"):
+            return (("d", "Ok", 0), ("f", 0, "0")) + tuple(rest[2:])
+        if aty.startswith("core::option::Option<"):
+            return (("d", "Some", 1), ("f", 0, "0")) + tuple(rest[2:])
     if _WRAPS_ENUM.search(f):
         # result is an enum wrapping the payload: (downcast, field 0, rest...) -> rest
         if len(rest) >= 2 and rest[0][0] == "d" and rest[1][0] == "f":
@@ -970,7 +980,8 @@ def variant_reach(body, start, no_nodes=(), no_edges=(), max_states=200000, assu
                 t.get("f", "").startswith("core::bool::<impl bool>::then")
                 or t.get("f") in ("core::ops::try_trait::FromResidual::from_residual", "core::ops::try_trait::Try::branch")):
             tracked.setdefault(t["dest"][0], True)
-    # locals receiving a whole move/copy of a tracked local are tracked too (`let m = if .. {a} else {b}` joins)
+    # locals receiving a whole move/copy of a tracked local (`let m = if .. {a} else {b}` joins), the single payload of a tracked
+    # aggregate, or its unwrapped payload `(w as V).0`, are tracked too
     grew = True
     while grew:
         grew = False
@@ -978,7 +989,7 @@ def variant_reach(body, start, no_nodes=(), no_edges=(), max_states=200000, assu
             for s in bl["s"]:
                 if s[0] == "A" and len(s[1]) == 1 and s[1][0] not in tracked and s[2][0] == "use":
                     p = op_place(s[2][1])
-                    if p is not None and len(p) == 1 and p[0] in tracked:
+                    if p is not None and p[0] in tracked and (len(p) == 1 or (len(p) == 3 and isinstance(p[1], list) and p[1][0] == "d" and isinstance(p[2], list) and p[2][0] == "f")):
                         tracked[s[1][0]] = True
                         grew = True
     mut_borrowed = set()
@@ -1020,16 +1031,31 @@ def variant_reach(body, start, no_nodes=(), no_edges=(), max_states=200000, assu
                 e.pop(("b", dst[0]), None)
             if whole and dst[0] in tracked and rv[0] == "agg" and isinstance(rv[1], dict) and "vidx" in rv[1]:
                 e[dst[0]] = rv[1]["vidx"]
+                # remember the variant of a single payload (`Poll::Ready(r)`, `Some(r)`) so `match` on the unwrapped payload stays precise
+                e.pop(("p", dst[0]), None)
+                if len(rv[2]) == 1:
+                    pp = op_place(rv[2][0])
+                    if pp is not None and len(pp) == 1 and pp[0] in e:
+                        e[("p", dst[0])] = e[pp[0]]
             elif dst[0] in tracked:
                 e.pop(dst[0], None)
+                e.pop(("p", dst[0]), None)
             if rv[0] == "disc" and len(rv[1]) == 1 and rv[1][0] in tracked and whole:
                 disc[dst[0]] = rv[1][0]
             if whole and rv[0] == "use" and op_place(rv[1]) is not None and len(op_place(rv[1])) == 1:
                 src = op_place(rv[1])[0]
                 if src in e and dst[0] in tracked:
                     e[dst[0]] = e[src]
+                    if ("p", src) in e:
+                        e[("p", dst[0])] = e[("p", src)]
                 if ("b", src) in e:
                     e[("b", dst[0])] = e[("b", src)]
+            elif whole and rv[0] == "use" and op_place(rv[1]) is not None and len(op_place(rv[1])) == 3 and dst[0] in tracked:
+                # `x = (w as Variant).0` with a remembered payload variant
+                pp = op_place(rv[1])
+                if isinstance(pp[1], list) and pp[1][0] == "d" and isinstance(pp[2], list) and pp[2][0] == "f" and pp[2][1] == 0 \
+                        and ("p", pp[0]) in e and e.get(pp[0]) == pp[1][2]:
+                    e[dst[0]] = e[("p", pp[0])]
             if whole and rv[0] == "un" and rv[1] == "Not" and op_place(rv[2]) is not None and len(op_place(rv[2])) == 1 and ("b", op_place(rv[2])[0]) in e:
                 e[("b", dst[0])] = not e[("b", op_place(rv[2])[0])]
         t = body.term(bb)
@@ -1086,3 +1112,10 @@ def vdominates(body, a, b):
         r = variant_reach(body, 0, no_nodes=(a,))
         cache[a] = r
     return b not in r
+
+
+def vedge_dominates(body, edge, b):
+    """variant-sensitive edge dominance: `b` is unreachable from the entry once the CFG edge is removed (see vdominates)"""
+    if body.edge_dominates(edge, b):
+        return True
+    return b not in variant_reach(body, 0, no_edges=[edge])
